@@ -118,22 +118,45 @@ def random_case(draw):
 
 
 # ---- histories: packets of all spaces and both directions arriving with gaps and reordering
+def _fresh_module():
+    """every history starts from freshly imported session code, so that what one history leaves behind at module level cannot reach the next
+    one (within a history several connections live side by side - there such state is visible to the oracle and to the replay)"""
+    import importlib
+    import sys
+    m = sys.modules.get("tlexport.quic.quic_session")
+    if m is not None:
+        importlib.reload(m)
+
+
 def replay_trace(spec):
-    qs = _session()
+    _fresh_module()
+    sessions = [_session()]
     model = {}
     for step in spec["trace"]:
-        space, srv, nbytes, truncated = step
-        k = (MODEL_SPACE[space], srv)
+        if step == ["new"]:
+            sessions.append(_session())
+            for space in SPACES:
+                for srv in (False, True):
+                    if _get_largest(sessions[-1], space, srv) != 0:
+                        return {"sig": "history: a new connection does not start with empty packet-number spaces",
+                                "detail": f"connection {len(sessions) - 1}: {space} srv={srv}", "nontrivial": True}
+            continue
+        conn, space, srv, nbytes, truncated = step
+        qs = sessions[conn]
+        k = (conn, MODEL_SPACE[space], srv)
         largest = model.get(k, -1)
         want = rfc_decode_pn(largest, truncated, 8 * nbytes)
         got = _call(qs, space, srv, nbytes, truncated)
         if got != want:
             return {"sig": "history: wrong packet number", "detail": f"step {step}: got {got} want {want} (model largest {largest})", "nontrivial": True}
         model[k] = max(largest, want)
-        stored = _get_largest(qs, space, srv)
-        if stored != max(model[k], 0):
-            return {"sig": "history: largest not tracked per space and direction", "detail": f"step {step}: stored {stored} model {model[k]}",
-                    "nontrivial": True}
+        for (cn, ms, sv), v in model.items():
+            for sp in SPACES:
+                if MODEL_SPACE[sp] == ms:
+                    stored = _get_largest(sessions[cn], sp, sv)
+                    if stored != max(v, 0):
+                        return {"sig": "history: largest not tracked per connection, space and direction",
+                                "detail": f"after step {step}: connection {cn} {sp} srv={sv}: stored {stored} model {v}", "nontrivial": True}
     return {"sig": None, "nontrivial": len(spec["trace"]) >= 3}
 
 
@@ -141,70 +164,89 @@ def make_machine(acc):
     class PnHistory(RuleBasedStateMachine):
         def __init__(self):
             super().__init__()
-            self.qs = _session()
+            _fresh_module()
+            self.sessions = [_session()]
             self.model = {}
             self.sent = {}
             self.trace = []
             self.kinds = set()
             acc["runs"] += 1
 
-        def _deliver(self, space, srv, pn, nbytes):
+        @rule()
+        def new_connection(self):
+            """another connection of the same run: its packet-number spaces are its own"""
+            if len(self.sessions) >= 4:
+                return
+            self.trace.append(["new"])
+            acc["trace"] = list(self.trace)
+            self.sessions.append(_session())
+            self.kinds.add("connections>=2")
+            for space in SPACES:
+                for srv in (False, True):
+                    assert _get_largest(self.sessions[-1], space, srv) == 0, \
+                        f"history: a new connection does not start with empty packet-number spaces | connection {len(self.sessions) - 1}: {space} srv={srv}"
+
+        def _deliver(self, conn, space, srv, pn, nbytes):
             truncated = pn & ((1 << (8 * nbytes)) - 1)
-            step = [space, srv, nbytes, truncated]
+            step = [conn, space, srv, nbytes, truncated]
             self.trace.append(step)
             acc["trace"] = list(self.trace)
             acc["steps"] += 1
-            k = (MODEL_SPACE[space], srv)
+            k = (conn, MODEL_SPACE[space], srv)
             largest = self.model.get(k, -1)
             want = rfc_decode_pn(largest, truncated, 8 * nbytes)
-            got = _call(self.qs, space, srv, nbytes, truncated)
+            got = _call(self.sessions[conn], space, srv, nbytes, truncated)
             assert got == want, f"history: wrong packet number | step {step}: got {got}, RFC gives {want} (largest {largest})"
             self.model[k] = max(largest, want)
             if want != ((largest + 1) & ~((1 << 8 * nbytes) - 1)) | truncated:
                 self.kinds.add("adjusted")
 
-        @rule(space=st.sampled_from(SPACES), srv=st.booleans(), gap=st.one_of(st.integers(0, 3), st.integers(0, 300), st.integers(0, 1 << 40)),
-              nbytes=st.integers(1, 4))
-        def send_next(self, space, srv, gap, nbytes):
-            k = (MODEL_SPACE[space], srv)
+        @rule(conn=st.integers(0, 3), space=st.sampled_from(SPACES), srv=st.booleans(),
+              gap=st.one_of(st.integers(0, 3), st.integers(0, 300), st.integers(0, 1 << 40)), nbytes=st.integers(1, 4))
+        def send_next(self, conn, space, srv, gap, nbytes):
+            conn %= len(self.sessions)
+            k = (conn, MODEL_SPACE[space], srv)
             pn = min(self.sent.get(k, -1) + 1 + gap, (1 << 62) - 1)
             self.sent[k] = pn
             self.kinds.add("gap" if gap else "next")
-            self._deliver(space, srv, pn, nbytes)
+            self._deliver(conn, space, srv, pn, nbytes)
 
-        @rule(space=st.sampled_from(SPACES), srv=st.booleans(), back=st.integers(1, 200), nbytes=st.integers(1, 4))
-        def late_arrival(self, space, srv, back, nbytes):
+        @rule(conn=st.integers(0, 3), space=st.sampled_from(SPACES), srv=st.booleans(), back=st.integers(1, 200), nbytes=st.integers(1, 4))
+        def late_arrival(self, conn, space, srv, back, nbytes):
             """a packet that was overtaken: number below the largest seen"""
-            k = (MODEL_SPACE[space], srv)
+            conn %= len(self.sessions)
+            k = (conn, MODEL_SPACE[space], srv)
             if self.sent.get(k, -1) < 1:
                 return
             pn = max(0, self.sent[k] - back)
             self.kinds.add("reordered")
-            self._deliver(space, srv, pn, nbytes)
+            self._deliver(conn, space, srv, pn, nbytes)
 
-        @rule(space=st.sampled_from(SPACES), srv=st.booleans(), base=st.integers(50, 61), off=st.integers(0, 1 << 20), nbytes=st.integers(1, 4))
-        def jump_high(self, space, srv, base, off, nbytes):
+        @rule(conn=st.integers(0, 3), space=st.sampled_from(SPACES), srv=st.booleans(), base=st.integers(50, 61), off=st.integers(0, 1 << 20),
+              nbytes=st.integers(1, 4))
+        def jump_high(self, conn, space, srv, base, off, nbytes):
             """long-lived connection: numbers beyond 2^53"""
-            k = (MODEL_SPACE[space], srv)
+            conn %= len(self.sessions)
+            k = (conn, MODEL_SPACE[space], srv)
             pn = min((1 << base) + off, (1 << 62) - 1)
             if pn <= self.sent.get(k, -1):
                 return
             # reach it in steps a 4-byte encoding can express is not required: A.3 is defined for any (largest, truncated)
             self.sent[k] = pn
             self.kinds.add("high")
-            self._deliver(space, srv, pn, nbytes)
+            self._deliver(conn, space, srv, pn, nbytes)
 
         @invariant()
         def largest_tracked(self):
-            for (ms, srv), v in self.model.items():
+            for (conn, ms, srv), v in self.model.items():
                 for space in SPACES:
                     if MODEL_SPACE[space] == ms:
-                        stored = _get_largest(self.qs, space, srv)
-                        assert stored == max(v, 0), (f"history: largest not tracked per space and direction | space {space} srv {srv}: "
-                                                     f"stored {stored}, model {v}")
+                        stored = _get_largest(self.sessions[conn], space, srv)
+                        assert stored == max(v, 0), (f"history: largest not tracked per connection, space and direction | connection {conn} "
+                                                     f"space {space} srv {srv}: stored {stored}, model {v}")
 
         def teardown(self):
-            if len(self.trace) >= 3 and len({(s, d) for s, d, _, _ in self.trace}) >= 2 and ("reordered" in self.kinds or "gap" in self.kinds):
+            if len(self.trace) >= 3 and len({tuple(x[:3]) for x in self.trace if len(x) == 5}) >= 2 and ("reordered" in self.kinds or "gap" in self.kinds):
                 acc["nontrivial"].add(engine.spec_hash(self.trace))
                 if len(acc["samples"]) < 2:
                     acc["samples"].append({"trace": list(self.trace)})
@@ -255,9 +297,9 @@ RULE = ("stage through-the-stack: real protected packets (2 suites x Retry x ski
         "tlexport.main, the packet number given to the AEAD compared with the sender's for every packet; then direct calls of the packet-number "
         "reconstruction on a stub session: (largest, length, truncated) enumerated around every window / "
         "half-window / 2^62 boundary at magnitudes 2^0..2^62 for all four lengths, random elsewhere; plus rule-based histories (gaps, late "
-        "arrivals, >2^53 jumps) over 4 packet types x 2 directions with an RFC A.3 model per (space, direction).  Non-trivial: the candidate "
+        "arrivals, >2^53 jumps, further connections) over 4 packet types x 2 directions with an RFC A.3 model per (connection, space, direction).  Non-trivial: the candidate "
         "is adjusted by +-window or lies within 3 of a decision boundary (direct); history with >=3 packets in >=2 (space,direction) pairs "
-        "and a gap or reordering")
+        "and a gap or reordering; a history holds up to 4 connections side by side, each with its own model")
 ASSUMPTIONS = ["oracle is the RFC 9000 A.3 pseudo-code transcribed in lib/quicref.rfc_decode_pn (integer arithmetic)",
                "'no packet seen yet' is represented by TLExport as largest = 0; for that state RFC (expected 0) and TLExport (expected 1) agree on every input, which the boundary stage covers"]
 
